@@ -251,6 +251,8 @@ func c13Scenarios(thorough bool) []c13Scenario {
 			name = "ws-included-file-saved"
 		}
 		out = append(out, c13Scenario{Name: name, Workspace: ws, Include: true, Msgs: []c13Msg{{Doc: 0, Version: 0, Special: "usesinc"}, {Special: "saveinc"}, {Doc: 0, Version: 1, Special: "usesinc2"}}, Bound: sb})
+		// no later change of the including document: its first analysis may still be running when the file is saved
+		out = append(out, c13Scenario{Name: name + "-and-nothing-else", Workspace: ws, Include: true, Msgs: []c13Msg{{Doc: 0, Version: 0, Special: "usesinc"}, {Special: "saveinc"}}, Bound: sb})
 		// the text returns to what it was before the included file was saved (same text, other meaning)
 		out = append(out, c13Scenario{Name: name + "-text-comes-back", Workspace: ws, Include: true, Msgs: []c13Msg{{Doc: 0, Version: 0, Special: "usesinc"}, {Special: "saveinc"}, {Doc: 0, Version: 1, Special: "usesinc2"}, {Doc: 0, Version: 2, Special: "usesinc"}}, Bound: sb})
 	}
